@@ -936,7 +936,12 @@ def compare_pool(ctx, rec, idx, out):
         code_cases = list(map(int, progs[k]['uids'])) if k < len(progs) else None
         ppf = rec['ppf'][k]
         mp = np.array([float(parse_rat(x)) for x in m['P']]) if m['P'] else np.zeros(0)
-        if len(mp) == len(ppf['p']):
+        if len(mp) == 0 and len(rec['src']) == 0 and len(ppf['p']):
+            # a source group without members that was resolved to a BoolArr: the code's guard `len(src_uids) == 0` does not fire,
+            # the mean over nobody is undefined (NaN) and so is every probability; the model takes its empty-source branch.
+            # Compared on the cases (the model says: none).
+            ctx.count('pool_empty_source_steps_reaching_the_filter')
+        elif len(mp) == len(ppf['p']):
             bad = np.abs(mp - ppf['p']) > TOL_POOL * np.maximum(np.abs(mp), 1e-30) + 1e-12
             if bad.any():
                 i = int(np.argmax(bad))
@@ -947,7 +952,7 @@ def compare_pool(ctx, rec, idx, out):
         if code_cases is None:
             return dict(why=f"pool {rec['pool']}/{dn}: set_prognoses was not called")
         if mc != code_cases:
-            near = np.abs(mp - ppf['r']) <= TOL_POOL * np.maximum(mp, ppf['r'])
+            near = np.abs(mp - ppf['r']) <= TOL_POOL * np.maximum(mp, ppf['r']) if len(mp) == len(ppf['r']) else np.zeros(0, dtype=bool)
             if near.any():
                 ctx.count('dont_care_near_tie_pools')
                 continue
